@@ -28,6 +28,11 @@ def raw(text):
     return 0
 def ask(prompt):
     return input(prompt)
+reader = input                     # the student keeps their own reference to input ...
+def ask_alias(prompt):
+    return reader(prompt)
+def ask_default(prompt, read=input):   # ... or binds it as a default argument when the function is defined
+    return read(prompt)
 def ask_many(n):
     got = []
     for _ in range(n):
@@ -174,7 +179,7 @@ class Stepper:
                                    'sep': st.sampled_from(SEPS), 'end': st.sampled_from(ENDS)}),
             st.fixed_dictionaries({'op': st.just('call'), 'f': st.just('raw'), 'args': st.lists(st.sampled_from(TEXTS), min_size=1, max_size=1)}),
             st.fixed_dictionaries({'op': st.just('call'), 'f': st.just('ask'), 'args': st.lists(st.sampled_from(PROMPTS), min_size=1, max_size=1),
-                                   'inputs': call_inputs}),
+                                   'inputs': call_inputs}, optional={'via': st.sampled_from(['alias', 'default'])}),
             st.fixed_dictionaries({'op': st.just('call'), 'f': st.just('ask_many'), 'n': st.integers(0, 3), 'inputs': call_inputs}),
             st.fixed_dictionaries({'op': st.just('call'), 'f': st.just('quiet'), 'args': st.just(['v'])}),
             st.fixed_dictionaries({'op': st.just('call'), 'f': st.just('fail'), 'args': st.lists(st.sampled_from(TEXTS), min_size=1, max_size=1)}),
@@ -276,7 +281,10 @@ class Stepper:
                     expect = 0
                 elif f == 'ask':
                     t, used, _ = self.model.execute([{'k': 'input', 'prompt': op['args'][0]}])
-                    r = sb.call('ask', op['args'][0], **extra)
+                    via = {'alias': 'ask_alias', 'default': 'ask_default'}.get(op.get('via'), 'ask')
+                    if via != 'ask':
+                        self.flags.add('input-through-kept-reference')
+                    r = sb.call(via, op['args'][0], **extra)
                     expect = used[0]
                 elif f == 'ask_many':
                     t, used, _ = self.model.execute([{'k': 'input', 'prompt': 'q>'}] * op['n'])
